@@ -3,7 +3,7 @@
    per-component properties (C02, C03-C05, C06-C08, C13) tie to the code. *)
 From Isomdl Require Import Lib.Bytes Lib.Cbor Lib.Base64 Model.Iv Model.Session Model.Honest Model.Cose Model.KeySchedule
   Model.ReaderAuth Model.Select Model.Render Spec.SelectSpec Spec.ReaderAuthSpec
-  Proofs.HonestProofs Proofs.C01Proofs Proofs.SelectProofs.
+  Spec.SelectCheck Api.C01 Proofs.HonestProofs Proofs.C01Proofs Proofs.SelectProofs Proofs.C01Exact.
 Open Scope N_scope.
 
 (* both sides derive the same keys: the reader recovers the engagement bytes from the QR code
@@ -14,6 +14,7 @@ Theorem C01_keys_agree : forall de erk ho zab_device zab_reader ek reader,
     session_key zab_device (transcript_bytes de erk ho) reader = session_key zab_reader (transcript_bytes de' erk ho) reader /\
     ble_ident ek = ble_ident ek.
 Proof. exact keys_agree. Qed.
+Print Assumptions C01_keys_agree.
 
 (* every message of every round decrypts at its recipient, the request reaches the holder, the
    response becomes ready and the reader obtains exactly the prepared response — for any number of
@@ -26,9 +27,11 @@ Theorem C01_all_rounds_deliver : forall (rounds : list round) (s : sys),
   synced s' /\
   Forall2 (fun r o => ro_request o = RoRequest (rn_req r) /\ ro_ready o = true /\ ro_response o = RsResponse (expected_response r)) rounds os.
 Proof. exact honest_run_ok. Qed.
+Print Assumptions C01_all_rounds_deliver.
 
 Theorem C01_fresh_session_synced : forall kr kd, synced (fresh kr kd).
 Proof. exact fresh_synced. Qed.
+Print Assumptions C01_fresh_session_synced.
 
 (* what the reader reports for a namespace: exactly the renderings of the disclosed elements
    (soundness: each entry is the rendering of a disclosed element; completeness: each disclosed
@@ -37,10 +40,59 @@ Proof. exact fresh_synced. Qed.
 Theorem C01_report_sound : forall items k v,
   In (k, v) (rendered_items items) -> exists x, In (k, x) items /\ render x = Some v.
 Proof. exact rendered_sound. Qed.
+Print Assumptions C01_report_sound.
 
 Theorem C01_report_complete : forall items k x,
   In (k, x) items -> render x <> None -> key_in k (rendered_items items).
 Proof. exact rendered_complete. Qed.
+Print Assumptions C01_report_complete.
+
+(* the composition of the two, machine-checked: for ALL held documents, requests and permitted maps,
+   the model's prediction of the reader's report (C02 selection of the first prepared mDL document,
+   then rendering of its disclosed core / aamva namespaces) equals the specification's independent
+   computation (the held mDL elements that are requested_any_b && permitted_b, rendered, inserted
+   in identifier order).  The hypotheses are the invariants of the Rust map types:
+     keys_distinct l  :=  NoDup (map fst l)
+     perm_wf perm     :=  keys_distinct perm /\ forall dt nss, In (dt, nss) perm -> keys_distinct nss
+                          (BTreeMap<DocType, BTreeMap<Namespace, Vec<Id>>>; element lists are arbitrary)
+     req_wf req       :=  forall dt nss, In (dt, nss) req -> keys_distinct nss
+                          (Vec<ItemsRequest>, docTypes may repeat; ItemsRequest.namespaces is a NonEmptyMap)
+     docs_wf docs     :=  forall d ns items, aget mdl docs = Some d -> aget ns (d_ns d) = Some items ->
+                            keys_distinct items /\ forall id it, In (id, it) items -> fst it = id
+                          (From<Mdoc> for Document keys each namespace by element_identifier)
+     mdl_can_sign docs := forall d, aget mdl docs = Some d -> d_can_sign d = true
+   Each of them is necessary: Proofs/C01Exact.v has a counterexample for every one
+   (can_sign_needed, perm_doc_types_distinct_needed, perm_namespaces_distinct_needed, req_wf_needed,
+   held_identifiers_distinct_needed, held_key_is_identifier_needed). *)
+Theorem C01_report_exact : forall (docs : list (key * document vitem)) (req : request) (perm : permitted),
+  perm_wf perm -> req_wf req -> docs_wf docs -> mdl_can_sign docs ->
+  expected_report docs req perm = spec_report docs req perm.
+Proof. exact report_exact. Qed.
+Print Assumptions C01_report_exact.
+
+(* per namespace (any namespace, not only the two that the reader reports) *)
+Theorem C01_namespace_exact : forall (docs : list (key * document vitem)) (req : request) (perm : permitted) (ns : bytes),
+  perm_wf perm -> req_wf req -> docs_wf docs -> mdl_can_sign docs ->
+  option_map rendered_items
+    (match find (fun pd => bytes_eqb (pd_doc_type pd) mdl) (sel_docs (prepare_response docs req perm)) with
+     | Some pd => aget ns (pd_disclosed pd)
+     | None => None
+     end) = spec_namespace docs req perm ns.
+Proof. exact namespace_exact. Qed.
+Print Assumptions C01_namespace_exact.
+
+(* the two definitions genuinely differ when the held mDL's device key has no signature algorithm:
+   the device lists the docType as a document error and the reader has nothing to report, while
+   spec_report does not look at the device key — hence the hypothesis mdl_can_sign *)
+Theorem C01_report_exact_cannot_sign_refuted :
+  let docs := [(mdl, {| d_can_sign := false; d_ns := [(ns_core, [([97], ([97], CUInt 1))])] |})] in
+  let req : request := [(mdl, [(ns_core, [[97]])])] in
+  let perm : permitted := [(mdl, [(ns_core, [[97]])])] in
+  perm_wf perm /\ req_wf req /\ docs_wf docs /\
+  expected_report docs req perm = None /\
+  spec_report docs req perm = Some (obj_to_cbor [(ns_core, obj_to_cbor [([97], CUInt 1)])]).
+Proof. exact can_sign_needed. Qed.
+Print Assumptions C01_report_exact_cannot_sign_refuted.
 
 (* issuer and device authentication are both Valid, without any error entry, when the chain
    validates against a configured anchor, the issuer's signature is the signer's, the disclosed
@@ -62,6 +114,7 @@ Theorem C01_both_valid : forall env d c payload mso crv x y,
           (iso_device_tbs (c_protected c) (e_de env) (e_erk env) (e_handover env) (rd_doc_type d) (rd_device_ns d)) (c_sig c) = true ->
   validate_document env d = {| o_issuer := Valid; o_device := Valid; o_errors := []; o_reported := true |}.
 Proof. exact honest_both_valid. Qed.
+Print Assumptions C01_both_valid.
 
 (* non-vacuity: three honest rounds, with 2, 0 and 1 documents *)
 Example C01_ex_three_rounds :
@@ -70,3 +123,21 @@ Example C01_ex_three_rounds :
                   {| rn_req := 3; rn_docs := [(1, [1])]; rn_errs := 0; rn_sigs := [[7]] |} ] in
   map ro_response (snd (fst (honest_run rounds (fresh 0 1)))) = map (fun r => RsResponse (expected_response r)) rounds.
 Proof. vm_compute. reflexivity. Qed.
+
+(* non-vacuity of C01_report_exact: two namespaces, identifier "a" in both, a permitted list with a
+   repeated and a not-held identifier ("z"), a request naming the mDL twice (and another docType in
+   between), a held value that does not render (null) *)
+Example C01_ex_report_exact :
+  let a := [97] in let b := [98] in let c := [99] in let d := [100] in let z := [122] in
+  let docs := [([1], {| d_can_sign := false; d_ns := [] |});
+               (mdl, {| d_can_sign := true;
+                        d_ns := [(ns_core, [(a, (a, CText [120])); (b, (b, CUInt 2)); (c, (c, CBytes [1; 2])); (d, (d, CUInt 4))]);
+                                 (ns_aamva, [(a, (a, CBool true)); (d, (d, CNull))])] |})] in
+  let req : request := [(mdl, [(ns_core, [b; a; d])]); ([1], [(ns_core, [a])]); (mdl, [(ns_aamva, [a; d; z]); (ns_core, [c; z])])] in
+  let perm : permitted := [(mdl, [(ns_aamva, [a; a; d; z]); (ns_core, [c; a; z; a; b])]); ([1], [(ns_core, [a])])] in
+  (perm_wf perm /\ req_wf req /\ docs_wf docs /\ mdl_can_sign docs) /\
+  expected_report docs req perm =
+    Some (obj_to_cbor [(ns_core, obj_to_cbor [(a, CText [120]); (b, CUInt 2); (c, CArray [CUInt 1; CUInt 2])]);
+                       (ns_aamva, obj_to_cbor [(a, CBool true)])]) /\
+  spec_report docs req perm = expected_report docs req perm.
+Proof. intros a b c d z docs req perm. split; [apply wf_b_ok|split]; vm_compute; reflexivity. Qed.
